@@ -215,7 +215,7 @@ func runWorker(bin, prop string, base uint64, from, count uint64, deadline time.
 			tail = tail[len(tail)-6000:]
 		}
 		if killed {
-			tail = "WATCHDOG: worker killed after exceeding the budget\n" + tail
+			tail = fmt.Sprintf("WATCHDOG: worker killed after exceeding the budget while running seed %d\n", lastStart) + tail
 		}
 		res.deaths = append(res.deaths, death{Seed: lastStart, Output: tail})
 		if started == 0 || killed {
